@@ -18,8 +18,32 @@ structure Gen.Sock where
   ok : Addr → Nat → Bool
   n : Nat := 0
   out : List (Option Sent) := []
+  /-- the receive queue of the socket (datagram, source), oldest first -/
+  inq : List (Bytes × Addr) := []
+  /-- the wall clock, read by `SystemTime::now()`: the reading taken when `k` sends have been attempted on this socket
+      (every non-empty `send_responses` call reads it once, before its first send, so readings of different batches
+      are independent parameters) -/
+  clock : Nat → Rs.Time := fun _ => ⟨0, 0⟩
 
-instance : Inhabited Gen.Sock := ⟨⟨fun _ _ => true, 0, []⟩⟩
+instance : Inhabited Gen.Sock := ⟨⟨fun _ _ => true, 0, [], [], fun _ => ⟨0, 0⟩⟩⟩
+
+/-- `SystemTime::now()` -/
+def Gen.Sock.now (s : Gen.Sock) : Rs.Time := s.clock s.n
+
+inductive Gen.ErrorKind where
+  | wouldBlock
+  | other
+  deriving Repr, DecidableEq
+
+/-- `socket.recv_from(&mut buf)`: `Err(WouldBlock)` on an empty queue (the only error modelled); otherwise the oldest
+    datagram is copied to the front of `buf` (truncated to the buffer; the rest of `buf` keeps its stale content) and
+    its length and source are returned -/
+def Gen.Sock.recvFrom (s : Gen.Sock) (buf : Bytes) : Res (Nat × Addr) × Gen.Sock × Bytes :=
+  match s.inq with
+  | [] => (.err, s, buf)
+  | (d, a) :: rest =>
+    let d' := d.take buf.length
+    (.ok (d'.length, a), { s with inq := rest }, d' ++ buf.drop d'.length)
 
 /-- `socket.send_to(bytes, dst)`: `Ok(len)` and the datagram on the wire, or `Err` and nothing -/
 def Gen.Sock.sendTo (s : Gen.Sock) (bytes : Bytes) (dst : Addr) : Res Nat × Gen.Sock :=
